@@ -4,6 +4,7 @@ package main
 
 import (
 	"fmt"
+	"strings"
 
 	"golang.org/x/tools/go/ssa"
 )
@@ -39,6 +40,11 @@ func ruleWR7(c *Ctx) {
 				}
 			}
 			if used {
+				return
+			}
+			// `_, _ = io.WriteString(os.Stderr, ...)`: a diagnostic line whose failure is deliberately of no consequence
+			if nme := calleeFullName(&cl.Call); (strings.HasPrefix(nme, "fmt.Fprint") || nme == "io.WriteString" || strings.HasPrefix(nme, "(*os.File).Write")) &&
+				len(cl.Call.Args) > 0 && isGlobalLoad(cl.Call.Args[0], "Stderr") {
 				return
 			}
 			bad++
